@@ -885,6 +885,10 @@ class Ctx:
     def exact(self, v):
         return Sym.lift(v)
 
+    def uf_table(self, tag):
+        """value table of the uninterpreted function `tag` on this path"""
+        return self.__dict__.setdefault("_uf_tables", {}).setdefault(tag, {})
+
     def model_all(self):
         m = self._last_model
         return {n: _zval(m.eval(v, model_completion=True)) for n, v in zip(self.var_names, self.z3vars)}
@@ -1032,6 +1036,9 @@ class ConcreteCtx:
     def exact(self, v):
         """exact rational value of a float (for oracles that only compare inputs)"""
         return Fraction(float(v))
+
+    def uf_table(self, tag):
+        return self.__dict__.setdefault("_uf_tables", {}).setdefault(tag, {})
 
     def is_finite(self, a):
         return _finite(a)
